@@ -291,9 +291,9 @@ func runC13(c *Ctx) {
 		iters := 120
 		reps := 2
 		if c.Thorough {
-			g = 24
-			iters = 300
-			reps = 4
+			g = 16
+			iters = 200
+			reps = 3
 		}
 		if v := c.Arg("g", ""); v != "" {
 			fmt.Sscan(v, &g)
